@@ -22,7 +22,7 @@ def jobs(tier):
         shapes = shapes[:4]
     nreqs = [1, 2, 3] if tier == "quick" else [1, 2, 3, 4]
     for np_, nums, ng, nreq in [(a, b, c, n) for (a, b, c) in shapes for n in nreqs]:
-        if nreq > np_ + ng + 1:
+        if nreq > np_ + ng + 1 or (nreq >= 4 and np_ >= 3):      # 3 put leads x 4 ids exceeds the 12 GB solver cap
             continue
         nums3 = tuple(nums) + (1,) * (3 - len(nums))
         sdef = ["-DNP=%d" % np_, "-DNG=%d" % ng, "-DPN0=%d" % nums3[0], "-DPN1=%d" % nums3[1], "-DPN2=%d" % nums3[2], "-DGN0=1",
